@@ -48,10 +48,12 @@ func TestVerif_C10(t *testing.T) {
 	defer r.Finish()
 	r.SetRule("Fault enumeration: for each generated honest-plus-hostile mirror history H (recorded as a fixed tape of messages), the uninterrupted run gives the reference chain, voting position and number W of store writes; then for EVERY k in 1..W a fresh mirror replays H with the writer of store write k frozen (nothing of write k or later reaches the stores), is cancelled, restarted on the same stores, and the interrupted message plus the rest of H are redelivered. Oracles: restart succeeds; positions not behind the stores; votes/proposals persisted for the resumed rounds are in the views again and verify; final chain and voting position equal the reference. Thorough tier adds a second crash inside the recovery run. Non-trivial = distinct (history, k) pairs in which the crash hit a write that belongs to a commit or vote persist and the recovery reached the end of H.")
 
-	nHist := r.N(10, 150)
+	nHist := r.N(16, 150)
 	var mu sync.Mutex
 	totals := map[string]int64{}
-	for hi := 0; hi < nHist; hi++ {
+	// histories are independent (own world, generator, stores); the crash points of one
+	// history run one after the other
+	r.Parallel(nHist, func(hi int) {
 		rng := r.NamedRNG("c10-history", hi)
 		id := fmt.Sprintf("c10-h%d", hi)
 		r.BeginCase(id)
@@ -61,7 +63,7 @@ func TestVerif_C10(t *testing.T) {
 			totals[k] += v
 		}
 		mu.Unlock()
-	}
+	})
 	for k, v := range totals {
 		r.Count(k, v)
 	}
